@@ -89,6 +89,13 @@ def bank():
         yield {"gemini://a.example/docs": (30, "gemini://a.example/docs/"), "gemini://a.example/docs/": (30, "gemini://a.example/docs")}, "gemini://a.example/docs", mx, "docs <-> docs/ cycle"
         grow = {"gemini://a.example/x" + "/" * i: (30, "gemini://a.example/x" + "/" * (i + 1)) for i in range(0, 12)}
         yield grow, "gemini://a.example/x", mx, "every answer is 'same URL plus /' (12 deep)"
+        # loop-free chains whose hops differ only in the query, the port, the case of the path or a trailing dot of the host
+        yield {"gemini://a.example/search?step=1": (30, "gemini://a.example/search?step=2"), "gemini://a.example/search?step=2": (31, "gemini://a.example/search?step=3"),
+               "gemini://a.example/search?step=3": (20, "text/gemini")}, "gemini://a.example/search?step=1", mx, "query-only chain ?step=1 -> 2 -> 3 -> final"
+        yield {"gemini://a.example/x": (30, "gemini://a.example:1966/x"), "gemini://a.example:1966/x": (30, "gemini://a.example:1967/x"), "gemini://a.example:1967/x": (20, "text/gemini")}, \
+            "gemini://a.example/x", mx, "port-only chain 1965 -> 1966 -> 1967 -> final"
+        yield {"gemini://a.example/Doc": (30, "gemini://a.example/doc"), "gemini://a.example/doc": (20, "text/gemini")}, "gemini://a.example/Doc", mx, "path differing in case only"
+        yield {"gemini://a.example/p?a=1&b=2": (30, "gemini://a.example/p?b=2&a=1"), "gemini://a.example/p?b=2&a=1": (20, "text/gemini")}, "gemini://a.example/p?a=1&b=2", mx, "query parameters reordered"
         loop = {"gemini://a.example/": (31, "gemini://b.example/"), "gemini://b.example/": (30, "gemini://a.example/")}
         yield loop, "gemini://a.example/", mx, "2-cycle"
         yield {"gemini://a.example/": (30, "gemini://a.example/")}, "gemini://a.example/", mx, "self-loop"
